@@ -15,8 +15,10 @@
    (exported as the well-known Gen* attributes and landing back in the fields);
    `export_import_ast_mux_partial` covers SIMPLE MULTIPLEXERS (`mbus`: per message ANY NUMBER of multiplexers
    at top level (none, one, or several - then every child is written with its SG_MUL_VAL_ line and the importer's
-   several-multiplexer path is taken) whose children are standard or enum signals, each child in one group, in several groups or
-   fixed (SG_MUL_VAL_ ranges are written and read back); standard and enum signals beside it; descriptions
+   several-multiplexer path is taken) whose children are standard or enum signals, each child in one group, in several groups
+   - all of them included - or fixed (SG_MUL_VAL_ ranges are written and read back; a signal that lists every group
+   comes back fixed, a fixed signal under a one-group multiplexer comes back listing group 0: same membership);
+   standard and enum signals beside it; descriptions
    everywhere; no attributes);
    `export_import_ast_partial` is the MERGED whole-bus theorem (`ambus`): the structure of `mbus` (standard and
    enum signals, descriptions, per message any number of top-level simple multiplexers) TOGETHER WITH attribute
@@ -26,8 +28,7 @@
    The full statement is
    Acme.C11.RoundTrip.export_import_full_statement (well_formed, names_ok spelled out there);
    `export_import_wf_flat` proves its conclusion from exactly those two hypotheses plus `flat_bus` (every
-   multiplexer top-level, top-level signals listed in position order, a multiplexed signal lists fewer groups than
-   its multiplexer has - or none, the multiplexer then having at least two -, minimum enum sizes below 2^32):
+   multiplexer top-level, top-level signals listed in position order, minimum enum sizes below 2^32):
    `wf_flat_in_fragment` shows such a bus lies in the merged fragment `ambus`.
    The other ingredients are proved in isolation: the four attribute types (+hex) and their defaults
    through the write/parse effect, SG_MUL_VAL_ ranges, the start-bit conversion, the sanitiser. *)
@@ -84,14 +85,13 @@ Print Assumptions export_import_ast_partial.
 
 (* the merged fragment seen from the hypotheses of the full statement: a well-formed (`well_formed`: the library's
    invariants as far as export / import depend on them), DBC-expressible (`names_ok`) bus that is FLAT - every
-   multiplexer top-level, top-level signals in position order, group lists shorter than the group count (none =
-   fixed, then at least two groups), minimum enum sizes below 2^32 - lies in `ambus` ... *)
+   multiplexer top-level, top-level signals in position order, minimum enum sizes below 2^32 - lies in `ambus` ... *)
 Theorem wf_flat_in_fragment : forall b, well_formed b -> names_ok b -> flat_bus b -> ambus b.
 Proof. exact Bridge.wf_flat_ambus. Qed.
 Print Assumptions wf_flat_in_fragment.
 
 (* ... so the conclusion of export_import_full_statement holds for every such bus: what the full statement still
-   lacks is nested multiplexing (and signal lists not in position order / group lists naming every group) *)
+   lacks is nested multiplexing (and signal lists not in position order) *)
 Theorem export_import_wf_flat : forall b, well_formed b -> names_ok b -> flat_bus b ->
   exists b', export_import b = Ok b' /\ proj_bus b' = proj_bus b.
 Proof. exact Bridge.export_import_wf_flat. Qed.
